@@ -248,7 +248,8 @@ class StringifyMapper(Mapper):
     def map_power(self, expr, enclosing_prec, *args, **kwargs):
         return self.parenthesize_if_needed(
                 self.format("%s**%s",
-                    self.rec(expr.base, PREC_POWER, *args, **kwargs),
+                    # '**' is right-associative: a power as the base needs parentheses
+                    self.rec(expr.base, PREC_POWER+1, *args, **kwargs),
                     self.rec(expr.exponent, PREC_POWER, *args, **kwargs)),
                 enclosing_prec, PREC_POWER)
 
@@ -302,9 +303,10 @@ class StringifyMapper(Mapper):
     def map_comparison(self, expr, enclosing_prec, *args, **kwargs):
         return self.parenthesize_if_needed(
                 self.format("%s %s %s",
-                    self.rec(expr.left, PREC_COMPARISON, *args, **kwargs),
+                    # comparisons do not associate: a comparison operand needs parentheses
+                    self.rec(expr.left, PREC_COMPARISON+1, *args, **kwargs),
                     expr.operator,
-                    self.rec(expr.right, PREC_COMPARISON, *args, **kwargs)),
+                    self.rec(expr.right, PREC_COMPARISON+1, *args, **kwargs)),
                 enclosing_prec, PREC_COMPARISON)
 
     def map_logical_not(self, expr, enclosing_prec, *args, **kwargs):
